@@ -31,6 +31,13 @@ type Container struct {
 	serviceErrorHandleFunc ServiceErrorHandleFunction
 	router                 RouteSelector // default is a CurlyRouter (RouterJSR311 is a slower alternative)
 	contentEncodingEnabled bool          // default is false
+	handlers               []muxHandler  // registered using Handle ; kept to rebuild the ServeMux on Remove
+}
+
+// muxHandler remembers a http.Handler that was registered for a pattern using Handle.
+type muxHandler struct {
+	pattern string
+	handler http.Handler
 }
 
 // NewContainer creates a new Container using a new ServeMux and default router (CurlyRouter)
@@ -157,6 +164,10 @@ func (c *Container) Remove(ws *WebService) error {
 			}
 			newServices = append(newServices, each)
 		}
+	}
+	// handlers that were registered using Handle must survive
+	for _, each := range c.handlers {
+		newServeMux.Handle(each.pattern, each.handler)
 	}
 	c.webServices, c.ServeMux, c.isRegisteredOnRoot = newServices, newServeMux, newIsRegisteredOnRoot
 	return nil
@@ -355,7 +366,9 @@ func (c *Container) currentServeMux() *http.ServeMux {
 
 // Handle registers the handler for the given pattern. If a handler already exists for pattern, Handle panics.
 func (c *Container) Handle(pattern string, handler http.Handler) {
-	c.ServeMux.Handle(pattern, http.HandlerFunc(func(httpWriter http.ResponseWriter, httpRequest *http.Request) {
+	c.webServicesLock.Lock()
+	defer c.webServicesLock.Unlock()
+	c.handle(pattern, http.HandlerFunc(func(httpWriter http.ResponseWriter, httpRequest *http.Request) {
 		// Skip, if httpWriter is already an CompressingResponseWriter
 		if _, ok := httpWriter.(*CompressingResponseWriter); ok {
 			handler.ServeHTTP(httpWriter, httpRequest)
@@ -386,6 +399,13 @@ func (c *Container) Handle(pattern string, handler http.Handler) {
 
 		handler.ServeHTTP(writer, httpRequest)
 	}))
+}
+
+// handle registers the handler on the current ServeMux and remembers it for Remove.
+// this function must run inside the critical region protected by the webServicesLock.
+func (c *Container) handle(pattern string, handler http.Handler) {
+	c.ServeMux.Handle(pattern, handler)
+	c.handlers = append(c.handlers, muxHandler{pattern: pattern, handler: handler})
 }
 
 // HandleWithFilter registers the handler for the given pattern.
